@@ -189,9 +189,10 @@ type env struct {
 	mu  sync.Mutex
 	log []event
 
-	fenceN  uint64
-	stopped atomic.Bool
-	rbuf    []byte
+	fenceN   uint64
+	stopped  atomic.Bool
+	rbuf     []byte
+	watchdog time.Duration
 }
 
 type audit struct{ e *env }
@@ -215,7 +216,7 @@ func (a audit) LogDisconnectRequest(req *radius.DisconnectRequest, resp *radius.
 const liveSession = "sess-1"
 
 func newEnv(secret []byte) (*env, error) {
-	e := &env{secret: secret, rbuf: make([]byte, 8192)}
+	e := &env{secret: secret, rbuf: make([]byte, 8192), watchdog: watchdog}
 	srv, err := radius.NewCoAServer(radius.CoAServerConfig{Address: "127.0.0.1:0", Secret: string(secret)}, zap.NewNop())
 	if err != nil {
 		return nil, err
@@ -338,7 +339,7 @@ func (e *env) run(ds [][]byte) ([]observation, error) {
 			return obs, fmt.Errorf("send fence: %w", err)
 		}
 	}
-	e.cconn.SetReadDeadline(time.Now().Add(watchdog))
+	e.cconn.SetReadDeadline(time.Now().Add(e.watchdog))
 	for cur := 0; cur < len(ds); {
 		n, err := e.cconn.Read(e.rbuf)
 		if err != nil {
@@ -533,6 +534,7 @@ var secrets = [][]byte{
 				b[i] = 0
 			}
 		}
+		b[63] = 0 // leading and trailing NUL: a secret is a byte string, not a C string
 		return b
 	}(),
 }
@@ -788,7 +790,43 @@ type famStat struct {
 	capped      bool
 }
 
-func classify(v *report.Violation) {}
+// classify assigns root-cause classes to the two defects found on the unchanged
+// tree (both repaired by /verif/fixes/C15-F1, C15-F2; neither is listed as a
+// known finding, so they are reported until the fixes are applied). The
+// predicates are recomputed from the witness datagram, not from the message.
+func classify(v *report.Violation) {
+	sh, _ := v.Extra["secret_hex"].(string)
+	dh, _ := v.Extra["datagram_hex"].(string)
+	secret, _ := hex.DecodeString(sh)
+	d, _ := hex.DecodeString(dh)
+	if len(d) < 20 {
+		return
+	}
+	ref := reference(d, secret)
+	switch v.Kind {
+	case "listener-panic":
+		if ref.Stage == "len<20" && strings.Contains(v.Detail, "slice bounds out of range") {
+			v.Class = "C15-F1-length-field-below-20-panic"
+		}
+	case "acted-on-unauthentic", "answered-unauthentic":
+		if ref.Stage != "tlv" {
+			return
+		}
+		// well-formed TLVs followed by exactly one leftover byte inside the length field
+		L := int(binary.BigEndian.Uint16(d[2:4]))
+		off := 20
+		for off+2 <= L {
+			al := int(d[off+1])
+			if al < 2 || off+al > L {
+				return
+			}
+			off += al
+		}
+		if off == L-1 {
+			v.Class = "C15-F2-stray-byte-after-last-attribute"
+		}
+	}
+}
 
 func TestCheck(t *testing.T) {
 	run := report.New("C15", "exploration")
@@ -825,8 +863,8 @@ func TestCheck(t *testing.T) {
 			}
 		}
 	}
-	// heavy jobs first for balance
-	sort.SliceStable(jobs, func(i, j int) bool { return jobs[i].fam.chunks > jobs[j].fam.chunks })
+	// cheap, diverse families first: an expired budget then cuts only the tail of the length sweep
+	sort.SliceStable(jobs, func(i, j int) bool { return jobs[i].fam.chunks < jobs[j].fam.chunks })
 
 	stats := map[string]*famStat{}
 	var smu sync.Mutex
@@ -876,8 +914,9 @@ func TestCheck(t *testing.T) {
 				}
 				local := &famStat{stages: map[string]int64{}}
 				p := buildRequest(jb.sd.code, jb.sd.id, jb.sd.attrs, e.secret)
-				// quick tier: the complete 0..65535 length sweep runs on the 6 seeds with id 1 and secret 0, a reduced one elsewhere
-				full := run.Thorough() || (jb.sd.id == 1 && jb.sd.secret == 0)
+				// quick tier: the complete 0..65535 length sweep runs on 2 seeds (CoA with 4 attributes,
+				// Disconnect with 1; id 1, secret 0), a reduced one on the other 52
+				full := run.Thorough() || (jb.sd.id == 1 && jb.sd.secret == 0 && ((jb.sd.code == 43 && len(jb.sd.attrs) == 4) || (jb.sd.code == 40 && len(jb.sd.attrs) == 1)))
 				var batch []stim
 				batchBytes := 0
 				flush := func() {
@@ -970,7 +1009,9 @@ func TestCheck(t *testing.T) {
 // listener cannot even do that, fencing is impossible; that is itself a
 // violation on a known-good input (reported), and the run stops.
 func selfTest(run *report.Run, e *env) error {
+	e.watchdog = 8 * time.Second
 	obs, err := e.run1(nil)
+	e.watchdog = watchdog
 	if err == errWatchdog {
 		// distinguish "nothing came back" (harness/network problem) from "something came back that does not verify"
 		if len(obs.Responses) > 0 {
